@@ -1968,6 +1968,10 @@ vinsertpair(VGROUP *vg,  /* IN: vgroup struct */
     /* clear error stack */
     HEclear();
 
+    /* the element count is stored in the file as an unsigned 16-bit number */
+    if (vg->nvelt >= MAX_REF)
+        HGOTO_ERROR(DFE_RANGE, FAIL);
+
     if ((int)vg->nvelt >= vg->msize) {
         vg->msize *= 2;
 
